@@ -1,7 +1,7 @@
 """C05: render method shapes of Shapes.tla (Forward) as #[unimock] traits with recording matchers / answers."""
 import json, random
 
-PTY = {"u8": "u8", "string": "String", "ru8": "&u8", "rru8": "&&u8", "str": "&str", "mu8": "&mut u8", "mvec": "&mut Vec<u8>", "mlvec": "&'a mut Vec<u8>",
+PTY = {"u8": "u8", "string": "String", "ru8": "&u8", "rru8": "&&u8", "str": "&str", "tstr": "&'t str", "mu8": "&mut u8", "mvec": "&mut Vec<u8>", "mlvec": "&'a mut Vec<u8>",
        "slice": "&[u8]", "vec": "Vec<u8>", "gen": "T", "optstr": "Option<&str>", "pair": "(u8, u8)"}
 RTY = {"u32": "u32", "string": "String", "opt": "Option<u32>", "ref": "&u32", "sref": "&'s u32", "optref": "Option<&u32>", "static": "&'static str",
        "assoc": "Self::Out", "pref": "&'a str", "dynref": "&dyn std::fmt::Display", "boxdyn": "Box<dyn std::fmt::Display>"}
@@ -9,7 +9,7 @@ RECV = {"ref": "&self", "mut": "&mut self", "own": "self", "rc": "self: std::rc:
 
 
 def arg(k, i):
-    return {"u8": "%d" % i, "string": 'String::from("s%d")' % i, "ru8": "&%d" % i, "rru8": "&&%d" % i, "str": '"s%d"' % i, "mu8": "&mut v%d" % i,
+    return {"u8": "%d" % i, "string": 'String::from("s%d")' % i, "ru8": "&%d" % i, "rru8": "&&%d" % i, "str": '"s%d"' % i, "tstr": '"s%d"' % i, "mu8": "&mut v%d" % i,
             "mvec": "&mut v%d" % i, "mlvec": "&mut v%d" % i, "slice": "&[%d, %d]" % (i, i + 1), "vec": "vec![%d, %d]" % (i, i + 1), "gen": "%du16" % i,
             "optstr": 'Some("k%d")' % i, "pair": "(%d, %d)" % (i, i + 1)}[k]
 
@@ -59,6 +59,7 @@ def render(cases):
         recv_src = "&'s self" if ret == "sref" else RECV[recv]
         assoc_attr = ", type Out = u32;" if ret == "assoc" else ""
         assoc_item = "type Out; " if ret == "assoc" else ""
+        trait_lt = "<'t>" if "tstr" in params else ""
         if asy == "asyncfn":
             sig = "async fn f%d%s(%s%s) -> %s;" % (n, gdecl, recv_src, plist, rty)
         elif asy == "implfuture":
@@ -83,7 +84,7 @@ def render(cases):
             else:
                 L.append("#[unimock(api=[F%d]%s)]" % (n, assoc_attr))
                 mf = "F%d" % n
-            L.append("%strait Tr%d { %s%s }" % ("pub " if ret == "assoc" else "", n, assoc_item, sig))
+            L.append("%strait Tr%d%s { %s%s }" % ("pub " if ret == "assoc" else "", n, trait_lt, assoc_item, sig))
             if generic:
                 mf += ".with_types::<u16>()"
             if len(params) == 0:
